@@ -162,15 +162,26 @@ def eval_pred(p, subst, positive):
     if p.kind == 'cmp':
         kind, d = p.args
         d = d.subs(subst)
+
+        def sign_of(poly):
+            # a polynomial in atoms known to be positive whose coefficients all have one sign has that sign
+            if not poly.t:
+                return 0
+            if not all(a in positive for m in poly.t for a, _ in m):
+                return None
+            cs = list(poly.t.values())
+            if all(c > 0 for c in cs):
+                return 1
+            if all(c < 0 for c in cs):
+                return -1
+            return None
         if d.is_zero():
             sg = 0
-        elif d.den.is_const() and len(d.num.t) == 1:
-            (m, c), = d.num.t.items()
-            if not all(a in positive for a, _ in m):
-                return None
-            sg = 1 if (c / d.den.const_value()) > 0 else -1
         else:
-            return None
+            sn, sd = sign_of(d.num), sign_of(d.den)
+            if sn is None or sd is None or sd == 0:
+                return None
+            sg = sn * sd
         return {'<=0': sg <= 0, '<0': sg < 0, '==0': sg == 0}[kind]
     vals = [eval_pred(a, subst, positive) for a in p.args]
     if p.kind == 'not':
